@@ -73,6 +73,24 @@ def m_locale(c, binp, tier, modes=("loc", "ext"), light=False):
             c.add_model(run_model("%s-%s" % (c.prop, name), "MC_Locale", consts, LOC_INV, binp=binp, workers=12, timeout=10800))
 
 
+def m_impl(c, binp, tier, replay=True):
+    """the parser as implemented, step by step: termination (ranking function) and refinement of the abstract
+    automaton are model-checked; the exact predicted outcomes are replayed to count behaviour drift (informational)"""
+    runs = [("impl-small5", dict(Depth=5, Alpha="small")), ("impl-tiny7", dict(Depth=7, Alpha="tiny"))]
+    if tier == "thorough":
+        runs = [("impl-small6", dict(Depth=6, Alpha="small")), ("impl-full5", dict(Depth=5, Alpha="full")), ("impl-tiny8", dict(Depth=8, Alpha="tiny"))]
+    for name, consts in runs:
+        res = run_model("%s-%s" % (c.prop, name), "MC_Impl", consts, ["Refines", "EmitCase"], properties=["ImplProgress"],
+                        binp=binp, workers=12, expect_cases=None, timeout=7200)
+        c.add_model(res)
+        st = res.get("summary", {}).get("stats", {})
+        c.extra_cov["impl_step_model_cases"] = c.extra_cov.get("impl_step_model_cases", 0) + st.get("impl_model_cases", 0)
+        c.extra_cov["impl_step_model_agreeing"] = c.extra_cov.get("impl_step_model_agreeing", 0) + st.get("impl_model_agree", 0)
+    drift = c.extra_cov.get("impl_step_model_cases", 0) - c.extra_cov.get("impl_step_model_agreeing", 0)
+    if drift:
+        c.notes.append("behaviour drift: %d cases differ from ImplParser.tla's exact prediction (within what the property allows unless also reported as a violation)" % drift)
+
+
 def m_subtags(c, binp, tier, light=False):
     runs = [("sub-boundary4", dict(MaxLen=4 if not light else 3, FullLen=4, Alpha="boundary", Emit=True)),
             ("sub-reduced%d" % (7 if tier == "quick" else 9), dict(MaxLen=7 if tier == "quick" else 9, FullLen=2, Alpha="reduced", Emit=True))]
@@ -214,6 +232,8 @@ def C01(tier, seed):
     m_subtags(c, binp, tier, light=True)
     m_object(c, binp, tier, edges=True, hist=False, full=False)
     m_cldr(c, binp, tier, modes=("closure",))
+    if tier == "thorough":
+        m_impl(c, binp, tier)      # the loop-level progress argument (ranking function) + deep replays
     traces(c, binp, "parse", tier)
     traces(c, binp, "hist", tier, quick_n=1500)
     traces(c, binp, "sub", tier, quick_n=1500)
@@ -226,6 +246,7 @@ def C02(tier, seed):
     binp = build_harness(ALL)
     m_langid(c, binp, tier)
     traces(c, binp, "parse", tier)
+    c.require(["li_accepted", "li_rejected"])
     return c.finish(rule="every token sequence over the 67-token boundary alphabet up to the depth bound through from_bytes/FromStr/canonicalize, verdict + error kind + all fields + text compared with ParseLI; non-trivial = accepted identifiers",
                     assumptions=ASSUME_COMMON, exhaustive=True)
 
@@ -235,7 +256,9 @@ def C03(tier, seed):
     binp = build_harness(ALL)
     m_locale(c, binp, tier)
     m_langid(c, binp, tier, light=True)
+    m_impl(c, binp, tier)
     traces(c, binp, "parse", tier)
+    c.require(["zone_accept", "zone_either", "zone_other", "zone_free", "zone_reject", "loc_accepted", "loc_rejected", "ext_from_bytes"])
     return c.finish(rule="every live token sequence over the extension vocabulary (dead prefixes are leaves) through Locale::from_bytes and ExtensionsMap::from_bytes, compared with the zone (accept/either/other/free/reject) and value of ParseLoc; non-trivial = accepted locales",
                     assumptions=ASSUME_COMMON, exhaustive=True)
 
@@ -314,6 +337,11 @@ def C10(tier, seed):
     binp = build_harness(ALL)
     m_object(c, binp, tier, edges=True, hist=True, full=True)
     m_object_likely(c, binp, tier, k_quick=4)
+    c.require(["op_" + o for o in ["set_language", "clear_language", "set_script", "clear_script", "set_region", "clear_region",
+               "set_variants", "clear_variants", "has_variant", "set_keyword", "remove_keyword", "clear_keywords", "keyword",
+               "set_attribute", "remove_attribute", "has_attribute", "clear_attributes", "set_tlang", "clear_tlang", "set_tfield",
+               "remove_tfield", "clear_tfields", "tfield", "add_tag", "remove_tag", "has_tag", "clear_tags", "maximize", "minimize",
+               "reparse"]])
     traces(c, binp, "hist", tier, quick_n=3000, thorough_n=20000)
     return c.finish(rule="LocaleObject.tla: every edge of the four component machines (arguments valid/boundary/invalid), every history up to K operations, the full product machine (invariants), simulated long behaviours, and seeded random histories of up to 60 operations from default() and parsed values; result, projection, text and is_empty compared after every step; non-trivial = operations applied",
                     assumptions=ASSUME_COMMON, exhaustive=True)
@@ -364,6 +392,7 @@ def C15(tier, seed):
     binp = build_harness(ALL)
     m_subtags(c, binp, tier)
     traces(c, binp, "sub", tier, quick_n=3000)
+    c.require(["sub_Language", "raw_language", "raw_script", "raw_region", "raw_variant"])
     return c.finish(rule="every byte string over the boundary byte alphabet up to length 4, alnum-pruned strings up to length 7/9 (thorough: all 16.8M strings of length <= 3) through from_bytes/FromStr of all four types; verdict, as_str, Display, == &str",
                     assumptions=ASSUME_COMMON, exhaustive=True)
 
